@@ -339,12 +339,16 @@ def run(ctx):
         for rq, tls in ((b"GET / HTTP/1.0\r\n\r\n", False), (b"GET /README HTTP/1.0\r\n\r\n", False), (b"HEAD /docs HTTP/1.0\r\n\r\n", False),
                         (b"GET /README HTTP/1.0\r\nno colon here\r\n\r\n", False), (b"GET /README HTTP/1.0\r\nHost: h\r\n\r\n", False),
                         (b"GET /wap/README HTTP/1.0\r\n\r\n", False), (b"GET /README HTTP/1.0\n\n", False),
-                        (b"/README\r\n", False), (b"/docs\t$\r\n", False), (b"h /README 0\r\n", False), (b"gemini://h/README\r\n", True)):
+                        (b"/README\r\n", False), (b"/docs\t$\r\n", False), (b"h /README 0\r\n", False), (b"gemini://h/README\r\n", True),
+                        # a Spartan body length that a C ssize_t holds and no memory does (a socket file allocates before it reads)
+                        (b"localhost / 1000000000000000\r\n", False), (b"localhost /README 4611686018427387904\r\n", False)):
             r, in_time = pyg.request_live(rq, cfg, tls=tls)
             res.evaluations += 1
             res.nontrivial.add(("live", rq))
             if not in_time or r is None or not r.out:
-                res.violation("C03:hang:live-client", "a complete request from a client that keeps its sending side open is not answered in bounded time",
+                res.violation("C03:hang:live-client" if not in_time else "C03:no-response:live-client",
+                              "a complete request from a client that keeps its sending side open is not answered in bounded time" if not in_time else
+                              "a complete request over a real socket got no response",
                               {"request": rq, "tls": tls}, observed={"answered_within_limit": in_time, "out": (r.out[:80] if r is not None and r.out else None)},
                               required="the response, at once", replay={"handlers": "shipped", "request_latin1": rq.decode("latin-1"), "tls": tls, "live": True})
     finally:
